@@ -74,7 +74,7 @@ func c01(run *ev.Run) {
 	acts = append(acts, send(w, "c0", world.SCAddresses["minersc"], constAmt(7), "7", 3))
 	acts = append(acts, send(w, "c0", "c0", constAmt(5), "self", 0))
 	acts = append(acts, contractAlphabet(w)...)
-	e := &chainsim.Explorer{Run: run, W: w, Actions: acts, Depth: run.Pick(3, 5), Monitors: []chainsim.Monitor{supplyMonitor},
+	e := &chainsim.Explorer{Run: run, W: w, Actions: acts, Depth: run.Pick(4, 5), Monitors: []chainsim.Monitor{supplyMonitor},
 		Budget: time.Duration(run.Pick(50, 780)) * time.Second, IgnoreTimeInKey: false}
 	run.Rule = "BFS over all action sequences up to the depth bound from genesis, one real Chain.UpdateState per transition, states deduplicated by the canonical full-trie form; oracle after every transition: sum of all account leaves == MaxTokenSupply, rejected transactions change nothing"
 	run.Assumptions = []string{"account leaves = every leaf written through StateContext.SetClientState since genesis (keytap seam)", "cold state cache per transition", "grocksdb replaced by the in-memory stand-in"}
